@@ -36,7 +36,7 @@ pub mod hash_map {
 }
 
 fn empty<T>() -> [Option<T>; CAP] {
-    core::array::from_fn(|_| None)
+    [const { None }; CAP]
 }
 
 impl<K, V, const S: bool> Default for Map<K, V, S> {
@@ -300,20 +300,20 @@ fn next_index<K: PartialOrd, V, const S: bool>(i: &Inner<K, V>, last: Option<usi
         }
         return None;
     }
-    // smallest key strictly greater than the key at `last`
+    // smallest key identity strictly greater than the identity at `last` (identities are order-preserving)
     let mut best: Option<usize> = None;
     let mut p = 0;
     while p < CAP {
         if p < i.n && i.vals[p].is_some() {
-            let k = i.keys[p].as_ref().unwrap();
+            let k = i.ids[p];
             let after_last = match last {
                 None => true,
-                Some(l) => k > i.keys[l].as_ref().unwrap(),
+                Some(l) => k > i.ids[l],
             };
             if after_last {
                 let better = match best {
                     None => true,
-                    Some(b) => k < i.keys[b].as_ref().unwrap(),
+                    Some(b) => k < i.ids[b],
                 };
                 if better {
                     best = Some(p);
